@@ -462,6 +462,44 @@ def same_id_cases():
     return True
 
 
+def field_to_s_cases():
+    """positional fields and tags holding decoded values whose encoder is laxer than the datatype's grammar: at level >= 2 writing
+    reports them; valid decoded values and kept texts are written at every level; an absent field raises NotFoundError"""
+    import gfapy
+    bad = [("P\tp\ta+,b+\t*", "gfa1", "overlaps", [[12, 5]]), ("P\tp\ta+,b+\t*", "gfa1", "overlaps", []), ("P\tp\ta+,b+\t*", "gfa1", "segment_names", []),
+           ("U\tu\ta b", "gfa2", "items", []), ("S\ta\t*\txx:Z:x", "gfa1", "xx", "a\tb"), ("S\ta\t*\txx:i:1", "gfa1", "xx", [1, "a"])]
+    good = [("P\tp\ta+,b+\t*", "gfa1", "overlaps", [gfapy.Alignment("2M", version="gfa1")]), ("S\ta\t*\txx:i:1", "gfa1", "xx", 7), ("S\ta\t*\txx:J:[1]", "gfa1", "xx", {"a": [1]}),
+            ("S\ta\t8\t*", "gfa2", "slen", 9), ("E\te\ta+\tb-\t0\t2\t2\t4$\t*", "gfa2", "beg1", 1)]
+    for vlevel in (0, 1, 2):
+        for text, version, field, value in bad:
+            l = gfapy.Line(text, version=version, vlevel=vlevel)
+            l._data[field] = value              # (stored as a later assignment at this level would store it)
+            try:
+                out = l.field_to_s(field)
+                reported = False
+            except gfapy.Error:
+                reported = True
+            except Exception as e:
+                return "field_to_s(%s) with %r at level %d raised %s" % (field, value, vlevel, type(e).__name__)
+            if vlevel >= 2 and not reported:
+                return "level %d: field %s = %r of %r written as %r without an error" % (vlevel, field, value, text, out)
+        for text, version, field, value in good:
+            l = gfapy.Line(text, version=version, vlevel=vlevel)
+            l._data[field] = value
+            try:
+                l.field_to_s(field)
+            except Exception as e:
+                return "level %d: valid value %r of field %s refused on writing: %s" % (vlevel, value, field, type(e).__name__)
+        try:
+            gfapy.Line("S\ta\t*", vlevel=vlevel).field_to_s("zz")
+            return "field_to_s of an absent tag returned"
+        except gfapy.NotFoundError:
+            pass
+        except Exception as e:
+            return "field_to_s of an absent tag raised %s" % type(e).__name__
+    return True
+
+
 def multiply_orchestration_cases():
     """real graphs: factor -1..4, copy names absent / right / too few / too many / in use / repeated, distribution on and off: refusals
     leave the text unchanged, otherwise the number of segments grows by factor-1 with the requested names and the counts are divided"""
